@@ -105,6 +105,15 @@ add("C08", "pipe", "exploration",
     "Trusts x/mod/sumdb/dirhash (cross-checked) and the harness sum-file reader; no clock or filesystem semantics beyond create/edit/delete/symlink.",
     "DESIGN.md section 3, C08")
 
+add("C02", "pipe", "fault_enumeration",
+    "systematic fault injection over generated layouts: every (generator, package, type) position gets error / unparseable-rendering / Defer-error / alias-error / skip / ignore / process-death faults; tree snapshots as oracle",
+    "For each generated layout (previous outputs and a gengo.sum from a successful run, sources then edited) every generator-visible position in processing order is "
+    "enumerated and injected with fault kinds round-robin (17 in-process kinds, os.Exit and SIGKILL in a child process). Error kinds: Execute returns non-nil without "
+    "panicking, the message names generator+package or a file:line:col position, the generator's previous file is byte-identical (or still absent), gengo.sum untouched. "
+    "Death kinds: non-zero exit, gengo.sum untouched, a clean re-run reaches the never-crashed state. ErrSkip/ErrIgnore (plain, wrapped) must not fail.",
+    "Faults are injected at generator-visible points only; no faults inside gengo's own write loop, no disk-full/EIO.",
+    "DESIGN.md section 3, C02")
+
 ALL = ["C%02d" % i for i in range(1, 21)]
 
 def main():
